@@ -159,7 +159,7 @@ def topair(a, conj=False):
     return a.astype(float).ravel()
 
 
-def f1_case(entry, pym, rng, active=None):
+def f1_case(entry, pym, rng, active=None, budget=None):
     """probe a module that is (affine-)linear in the inputs `active` (all by default) with the other inputs fixed at the
     entry's point: returns (Coq check, meta) or None when not applicable"""
     m, ins, outs = entry['build']()
@@ -225,6 +225,8 @@ def f1_case(entry, pym, rng, active=None):
             g.append(np.real(np.asarray(gi, dtype=complex)).ravel())
     g = np.concatenate(g)
     wv = np.concatenate(wpair)
+    if budget is not None and float(np.count_nonzero(T)) * mm > budget:
+        return None        # quick tier: `apply T` costs nnz * m list steps in Coq (a 3-D stiffness matrix of 54 dofs needs minutes)
     trip = [(i, j, Fraction(float(T[i, j]))) for i in range(mm) for j in range(n) if T[i, j] != 0.0]
     scale = max(1.0, float(np.max(np.abs(T), initial=0)) * 3 * max(n, mm) * 3)
     tol = Fraction(scale) / 10 ** 9
@@ -448,7 +450,7 @@ def run(ctx):
             groups = [None] if e['linear'] is True else e['linear']      # True: jointly linear; else list of input groups
             for active in groups:
                 try:
-                    r = f1_case(e, pym, rng, active)
+                    r = f1_case(e, pym, rng, active, budget=3e6 if quick else None)
                 except Exception as ex:
                     ctx.violation('impl-violates', e['name'], 'response/sensitivity complete without raising', 'zoo entry',
                                   dict(cfg=str(e['cfg'])), got=f'{type(ex).__name__}: {str(ex)[:500]}')
@@ -461,6 +463,12 @@ def run(ctx):
                 ctx.count('f1:' + e['name'])
                 ctx.case(('f1', e['name'], str(e['cfg']), expr[:500]), meta['nnz'] >= 2,
                          sample=dict(kind='F1 probe', module=e['name'], cfg=str(e['cfg']), **meta))
+    # balance the shards: the k-th shard gets the k-th largest case, then the (nshards+k)-th largest ... (the few very large
+    # cases -- 3-D stiffness matrices with thousands of entries -- then evaluate in parallel instead of in one shard)
+    nsh = max(1, -(-len(checks) // 6))
+    by_size = sorted(range(len(checks)), key=lambda i: -len(checks[i]))
+    perm = [by_size[j * nsh + k] for k in range(nsh) for j in range(6) if j * nsh + k < len(checks)]
+    checks, labels = [checks[i] for i in perm], [labels[i] for i in perm]
     failing, err = vlib.run_cases(ctx, 'f1', HEADER_F1, checks, chunk=6)
     ctx.obligation('correspondence:F1 case files evaluated', 'correspondence', not err, err)
     ctx.obligation('correspondence:F1 sensitivity == transpose of response', 'correspondence', not failing and not err, str(failing[:10]))
